@@ -97,8 +97,10 @@ def run_incarnation_jobs(jobs, workers, timeout=1500):
                 env = dict(os.environ)
                 env["PYTHONHASHSEED"] = str(hs)
                 env["VERIF_REEXEC"] = "1"
+                logf = open(path + ".log", "w")
                 p = subprocess.Popen([sys.executable, os.path.join(VERIF_DIR, "check"), PROP, "--worker", path],
-                                     env=env, stdout=subprocess.PIPE, stderr=subprocess.STDOUT, text=True)
+                                     env=env, stdout=logf, stderr=subprocess.STDOUT, text=True)
+                logf.close()
                 running.append((ji, hs, path, p, time.monotonic()))
             still = []
             for ji, hs, path, p, ts in running:
@@ -109,15 +111,18 @@ def run_incarnation_jobs(jobs, workers, timeout=1500):
                         raise HarnessError("incarnation job %d (hash seed %s) timed out" % (ji, hs))
                     still.append((ji, hs, path, p, ts))
                     continue
-                out = p.stdout.read()
+                with open(path + ".log") as lf:
+                    out = lf.read()
                 if rc != 0 or not os.path.exists(path + ".out"):
                     raise HarnessError("incarnation job %d (hash seed %s) failed rc=%s: %s" % (ji, hs, rc, out[-2000:]))
                 with open(path + ".out") as f:
-                    for r in json.load(f):
+                    for pos, r in enumerate(json.load(f)):
                         r["hashseed"] = hs
+                        r["job"] = ji
+                        r["pos"] = pos
                         results.append(r)
-                os.remove(path)
-                os.remove(path + ".out")
+                for suffix in ("", ".out", ".log"):
+                    os.remove(path + suffix)
             running = still
             if running:
                 time.sleep(0.05)
@@ -237,9 +242,47 @@ def minimise_pair(case, var, hashseed, max_runs=40, max_s=120):
     return case, var, hashseed, runs[0]
 
 
+def _history_differs(items, hashseed, cid, vid):
+    """Run ``items`` in order in ONE fresh interpreter; compare the target item's
+    outputs with the canonical variant of its case run alone (hash seed 0)."""
+    case = [c for c, v in items if c["id"] == cid][-1]
+    res = run_incarnation_jobs([(0, [(case, gen08.canonical_variant())]), (hashseed, list(items))], workers=2)
+    a = [r for r in res if r["job"] == 0][0]["res"]
+    b = [r for r in res if r["job"] == 1 and r["cid"] == cid and r["vid"] == vid][-1]["res"]
+    return gen08.compare(a, b)
+
+
+def _minimise_history(items, hashseed, cid, vid, max_runs=12):
+    items = list(items)
+    runs = 0
+    i = len(items) - 2
+    while i >= 0 and runs < max_runs:
+        cand = items[:i] + items[i + 1:]
+        runs += 1
+        try:
+            if _history_differs(cand, hashseed, cid, vid):
+                items = cand
+        except HarnessError:
+            pass
+        i -= 1
+    return items
+
+
 def replay(path, quiet=False):
     with open(path) as f:
         payload = json.load(f)
+    if payload.get("kind") == "job_history":
+        items = [(it["case"], it["var"]) for it in payload["items"]]
+        bad = _history_differs(items, payload["hashseed"], payload["target"][0], payload["target"][1])
+        if not quiet:
+            print("history of %d (case, variant) items in one interpreter, hash seed %s; target %s"
+                  % (len(items), payload["hashseed"], payload["target"]))
+        if bad:
+            print("  differing steps: %s" % bad)
+            print("VIOLATION property=%s replay=%s" % (PROP, path))
+            return 1
+        print("replay: no difference")
+        return 0
     case, var, hs = payload["case"], payload["variant"], payload["hashseed"]
     canon = gen08.canonical_variant()
     jobs = [(0, [(case, canon)]), (hs, [(case, var)])]
@@ -360,7 +403,8 @@ def main(args):
                 distinct.add((r["cid"], sid, st["op"], ",".join(sorted(st.get("opts", {}))),
                               tuple(gen08.dims_of(v)), r["hashseed"] != 0))
         if bad:
-            mism.append({"case": c, "variant": v, "hashseed": r["hashseed"], "bad": bad})
+            mism.append({"case": c, "variant": v, "hashseed": r["hashseed"], "bad": bad,
+                         "job": r.get("job"), "pos": r.get("pos")})
     # directed known findings
     known_counts = {}
     for f in directed:
@@ -415,6 +459,18 @@ def main(args):
                 payload.update({"case": m["case"], "variant": m["variant"], "hashseed": m["hashseed"],
                                 "minimiser_runs": 0, "dims": gen08.dims_of(m["variant"])})
                 path = driver.write_replay(PROP, "%d-%d-orig" % (m["case"]["seed"], gi), payload)
+                rc, out = driver.replay_in_fresh_process(PROP, path)
+            if rc != 1 and m.get("job") is not None:
+                # not reproducible alone: the interpreter's whole preceding item list
+                # becomes the history (state leaking through process globals)
+                hist = jobs[m["job"]][1][: m["pos"] + 1]
+                hist = _minimise_history(hist, m["hashseed"], m["case"]["id"], m["variant"]["vid"])
+                payload = {"property": PROP, "kind": "job_history", "hashseed": m["hashseed"],
+                           "items": [{"case": c_, "var": v_} for c_, v_ in hist],
+                           "target": [m["case"]["id"], m["variant"]["vid"]], "differing": m["bad"],
+                           "case": m["case"], "variant": m["variant"], "dims": gen08.dims_of(m["variant"]),
+                           "how_to_replay": "./check C08 --replay <this file>"}
+                path = driver.write_replay(PROP, "%d-%d-history" % (m["case"]["seed"], gi), payload)
                 rc, out = driver.replay_in_fresh_process(PROP, path)
             if rc == 1:
                 print("VIOLATION property=%s replay=%s" % (PROP, path))
